@@ -322,7 +322,14 @@ def classify_san(tool, stderr, scenario):
         if f:
             pair.append(f)
     if not pair:
-        pair = [scenario]
+        # the racing accesses are in harness code operating on memory the API handed out
+        # (cursor slices): name the harness functions
+        for title, frames in stacks[:2]:
+            for fn, path, _l in frames:
+                if "vq-sync/src" in path:
+                    pair.append("harness/%s:%s" % (os.path.basename(path), short_fn(fn)))
+                    break
+        pair = pair or [scenario]
     sig = "%s:%s:%s" % (tool, kind, "<->".join(pair))
     return (kind, sig, m.group(0))
 
